@@ -78,7 +78,7 @@ impl Prop for C03 {
         serde_json::to_value(Case { ag, expect_mode }).unwrap()
     }
     fn rule(&self) -> String {
-        "AG meant to have conflicts: stratum expr (binary/prefix/postfix operators, random %left/%right/%nonassoc lines, tokens without precedence, %prec overrides, same right-hand side in 2-3 rules), rand with random precedence lines, repo. Oracle: every (state,token) cell re-derived from closed_state()/edges() and the AG's precedence model; conflict lists compared as multisets with the cells settled by the two default rules; accept+reduce => Err; for ~1/40 of the cases a compile-time build with %expect/%expect-rr in {absent,true,true+1,true-1,0} must fail iff the counts differ. Evaluation = one grammar (all cells). Non-trivial: >=1 cell with >=2 candidates; distinct by hash(grammar).".into()
+        "AG meant to have conflicts: stratum expr (binary/prefix/postfix operators, random %left/%right/%nonassoc lines, tokens without precedence, %prec overrides, same right-hand side in 2-3 rules), rand with random precedence lines, repo. Oracle: every (state,token) cell re-derived from closed_state()/edges() and the AG's precedence model; conflict lists compared as multisets with the cells settled by the two default rules; accept+reduce => Err; for ~1/40 of the cases a compile-time build with %expect/%expect-rr in {absent,true,true+1,true-1,0} must fail iff the counts differ (for a third of the mismatching cases after a lenient error_on_conflicts(false) build process has left a module at the same output path). Evaluation = one grammar (all cells). Non-trivial: >=1 cell with >=2 candidates; distinct by hash(grammar).".into()
     }
     fn assumptions(&self) -> Vec<String> {
         vec![
@@ -99,6 +99,7 @@ impl Prop for C03 {
             "three-way-cell",
             "expect:build-ok",
             "expect:build-err",
+            "expect:after-lenient-build",
         ]
     }
     fn evaluate(&self, case: &Value) -> Outcome {
@@ -363,6 +364,38 @@ impl Prop for C03 {
             let gp = dir.join(format!("g{n}.y"));
             let op = dir.join(format!("g{n}.y.rs"));
             std::fs::write(&gp, &src2).unwrap();
+            // For a third of the mismatching cases an earlier, lenient build process
+            // (error_on_conflicts(false)) has already left a module at the output path: the strict
+            // build that follows must still fail (it must not be served from that module).
+            if should_fail && (sr + rr) > 0 && n % 3 == 0 {
+                let lp = dir.join(format!("g{n}.l"));
+                std::fs::write(&lp, "%%\nx ;\n").unwrap();
+                let spec = crate::ctstep::CtSpec {
+                    grammar_path: gp.to_string_lossy().to_string(),
+                    lexer_path: lp.to_string_lossy().to_string(),
+                    parser_out: op.to_string_lossy().to_string(),
+                    lexer_out: dir.join(format!("g{n}.l.rs")).to_string_lossy().to_string(),
+                    yacckind: Some("Generic".into()),
+                    error_on_conflicts: Some(false),
+                    warnings_are_errors: Some(false),
+                    show_warnings: Some(false),
+                    strict_terms_in_lexer: Some(false),
+                    ..Default::default()
+                };
+                match crate::ctstep::run_ctstep(&spec) {
+                    Ok(r) if r.parser_ok => o.class("expect:after-lenient-build"),
+                    Ok(r) => {
+                        o.fail("wrong", "C03/expect/lenient-build-fails", format!("error_on_conflicts(false) build failed: {:?}\n{src2}", r.parser_error));
+                        return o;
+                    }
+                    Err(e) => {
+                        o.fail("harness", "C03/harness", e);
+                        return o;
+                    }
+                }
+                let _ = std::fs::remove_file(&lp);
+                let _ = std::fs::remove_file(dir.join(format!("g{n}.l.rs")));
+            }
             let r = CTParserBuilder::<DefaultLexerTypes<u32>>::new()
                 .yacckind(YaccKind::Original(cfgrammar::yacc::YaccOriginalActionKind::GenericParseTree))
                 .grammar_path(&gp)
